@@ -63,6 +63,8 @@ def expr_to_nlgen(e):
         return ["d", e["i"]]
     if k == "pl":
         return ["pl", list(e["s"]), list(e["b"]), expr_to_nlgen(e["a"][0])]
+    if e["op"] == 1078:                # abstract (1/2)^a
+        return ["o", 78, ["n", 0.5], expr_to_nlgen(e["a"][0])]
     return ["o", e["op"]] + [expr_to_nlgen(a) for a in e["a"]]
 
 
@@ -179,7 +181,7 @@ def scale_expr(e, D, unscaled=False):
     args = []
     for j, a in enumerate(e["a"]):
         # exponent of pow (o76) is a count, not a value
-        args.append(scale_expr(a, D, unscaled=(e["op"] == 76 and j == 1)))
+        args.append(scale_expr(a, D, unscaled=(e["op"] == 76 and j == 1) or (e["op"] == 78 and j == 0)))
     return {"k": "o", "op": e["op"], "a": args}
 
 
@@ -274,6 +276,10 @@ def m_con(ev, D, vars_):
                 r["params"] = [pair(p_ * sc, 1) for p_ in d["params"]]
             elif ev["type"] == "PowConstraint":
                 r["params"] = [pair(p, 1) for p in d["params"]]
+            elif ev["type"] == "ExpAConstraint":      # base as [numerator, denominator]
+                if d["params"][0] not in (2, 0.5) or D != 1:
+                    raise NonGrid("expa base")
+                r["params"] = [[2, 1] if d["params"][0] == 2 else [1, 2]]
             else:
                 r["params"] = [pair(p, D) for p in d["params"]]
     elif k == "sos":
@@ -293,7 +299,7 @@ DET_FUNCS = {"MaxConstraint", "MinConstraint", "AbsConstraint", "AndConstraint",
              "IfThenConstraint", "ImplicationConstraint", "AllDiffConstraint", "NumberofConstConstraint",
              "NumberofVarConstraint", "CountConstraint", "PowConstraint",
              # determined too, but the value may be off the grid (then no value: FlatSem!FuncValSet)
-             "PLConstraint", "DivConstraint"}
+             "PLConstraint", "DivConstraint", "ExpAConstraint"}
 
 
 def delivered_record(rec, D, n0):
